@@ -145,21 +145,46 @@ pub fn gen_daub(rng: &mut Rng, tier: &Tier) -> Vec<Case> {
                 let mut alive = crate::gen::try_exec(&mut it, &l1, &mut trace).is_some();
                 let mut c = vec![l1, l2, "cfg 1".to_string(), "cfg 2".to_string()];
                 let len = 3 * o + 4;
-                for i in 0..len {
-                    let x = match shape {
+                // a third of the cases continue after a reset (or a copy) of both filters with a second, different
+                // signal: a reset cascade is a fresh cascade
+                let second = if rng.chance(1, 3) { *rng.pick(&["reset", "clone", "gutsrt"]) } else { "" };
+                for i in 0..(if second.is_empty() { len } else { 2 * len }) {
+                    if i == len {
+                        if !alive {
+                            break;
+                        }
+                        let ok = match second {
+                            "reset" => {
+                                c.push("reset 1".into());
+                                c.push("reset 2".into());
+                                crate::gen::try_exec(&mut it, "reset 1", &mut trace).is_some()
+                            }
+                            op => {
+                                // both filters are replaced by their copies, which carry on
+                                c.push(format!("{} 1 3", op));
+                                c.push(format!("{} 2 4", op));
+                                true
+                            }
+                        };
+                        if !ok {
+                            break;
+                        }
+                    }
+                    let (a, b) = if i >= len && second != "reset" && !second.is_empty() { (3, 4) } else { (1, 2) };
+                    let x = if i >= len { (rng.range(-1000, 1000) as f64) / 100.0 + 3.0 } else { match shape {
                         0 => if i == 0 { 1.0 } else { 0.0 },                    // impulse at the first sample (edge-extended!)
                         1 => if i == 2 { 1.0 } else { 0.0 },                    // impulse
                         2 => if i >= 3 { 1.0 } else { 0.0 },                    // step
                         3 => 2.5,                                               // constant
                         _ => (rng.range(-1000, 1000) as f64) / 100.0,           // bounded random
-                    };
+                    } };
                     let xs = fb(t, x);
                     // the synthesis filter is fed what the real analysis filter answers; once that one has panicked
                     // only the analysis side continues (and the run reports the panic)
                     let out = if alive { crate::gen::try_exec(&mut it, &format!("f 1 {}", xs), &mut trace) } else { None };
-                    c.push(format!("f 1 {}", xs));
+                    c.push(format!("f {} {}", a, xs));
                     match out {
-                        Some(out) if out.split(' ').count() == 2 => c.push(format!("f 2 {}", out)),
+                        Some(out) if out.split(' ').count() == 2 => c.push(format!("f {} {}", b, out)),
                         _ => alive = false,
                     }
                 }
